@@ -44,9 +44,10 @@ def rundir(name):
     return d
 
 
-def build_harness(race=False):
+def build_harness(race=False, into=None):
     """Rebuild the driver from the current working tree of the repository (hooks on)."""
-    os.makedirs(BIN, exist_ok=True)
+    bindir = into or BIN
+    os.makedirs(bindir, exist_ok=True)
     src_sum = os.path.join(REPO, "src", "go.sum")
     shutil.copyfile(src_sum, os.path.join(HARNESS, "go.sum"))
     gomod = os.path.join(HARNESS, "go.mod")
@@ -56,7 +57,7 @@ def build_harness(race=False):
     if txt2 != txt:
         open(gomod, "w").write(txt2)
     name = "drive-race" if race else "drive"
-    out = os.path.join(BIN, name)
+    out = os.path.join(bindir, name)
     cmd = ["go", "build", "-tags", "verif", "-o", out]
     if race:
         cmd.insert(2, "-race")
@@ -93,10 +94,10 @@ def tlc(workdir, module, cfg, workers=1, timeout=600, extra=(), simulate=None, h
 
 
 def tlc_stats(out):
-    m = re.search(r"(\d+) states generated, (\d+) distinct states found", out)
-    if not m:
+    ms = re.findall(r"(\d+) states generated, (\d+) distinct states found, \d+ states? left on queue\.\s*$", out, re.M)
+    if not ms:
         return None
-    return {"generated": int(m.group(1)), "distinct": int(m.group(2))}
+    return {"generated": int(ms[-1][0]), "distinct": int(ms[-1][1])}
 
 
 def tlc_violation(out):
